@@ -119,18 +119,6 @@ theorem C18_env (idx base : Str) :
 
 /-! ### order -/
 
-theorem pairwise_sortedByIdx {l : List Found} (h : l.Pairwise fun a b => idxVal a.idx ≤ idxVal b.idx) :
-    sortedByIdx l = true := by
-  induction l with
-  | nil => rfl
-  | cons a rest ih =>
-    cases rest with
-    | nil => rfl
-    | cons b rest' =>
-      rw [List.pairwise_cons] at h
-      simp only [sortedByIdx, Bool.and_eq_true, decide_eq_true_eq]
-      exact ⟨h.1 b (by simp), ih h.2⟩
-
 /-- **Order.** Plugins are launched in index order, and the active plugins in launch order
     are sorted by index — so the order `sortPlugins` produces (any index-sorted permutation)
     invokes them in index order. -/
